@@ -108,7 +108,7 @@ def gen(rng, tier):
             out.append(Case("bdeduce", ty, "bi", "-", [], x + c0[0] + [c0[1]] + c1[0] + [c1[1]] + [ay], tag=tag))
         # unlabelled products
         for dims in ([2, 2], [2, 3], [3, 3], [3, 4], [4, 4], [2, 2, 2], [2, 3, 2], [3, 3, 2], [3, 3, 3]):
-            for i in range(60 if tier == "quick" else 20000):
+            for i in range(60 if tier == "quick" else 2500):
                 grid = i % 2 == 0
                 den = rng.choice([8, 64])
                 ws = [G.grid_opinion(rng, n, den) if grid else G.float_opinion(rng, ty, n, positive=False) for n in dims]
